@@ -372,6 +372,33 @@ class DeepInliner(Inliner):
             if isinstance(v, ast.AST):
                 setattr(s, fld, Tr().visit(v))
 
+    def _bind_unbound_methods(self, s: ast.stmt) -> None:
+        """`method(self, x)` with `method` a function of the entry point's class taken from a class-level table  ->  `self.method(x)`"""
+        root = getattr(self, "root", None)
+        if root is None or root.cls is None or isinstance(s, (ast.FunctionDef, ast.ClassDef)) or not root.node.args.args:
+            return
+        selfname = root.node.args.args[0].arg
+        cls = root.cls
+        repo = self.repo
+
+        class Tr(ast.NodeTransformer):
+            def visit_Lambda(self, node):  # noqa: N802
+                return node
+
+            def visit_Call(self, node):  # noqa: N802
+                self.generic_visit(node)
+                if isinstance(node.func, ast.Name) and node.args and isinstance(node.args[0], ast.Name) and node.args[0].id == selfname:
+                    m = repo.lookup_method(cls, node.func.id)
+                    if m is not None and not m.is_staticmethod and not m.is_classmethod and not m.is_property:
+                        new = ast.Call(func=ast.copy_location(ast.Attribute(value=node.args[0], attr=node.func.id, ctx=ast.Load()), node.func), args=node.args[1:], keywords=node.keywords)
+                        return ast.copy_location(new, node)
+                return node
+
+        for fld in ("value", "test", "iter"):
+            v = getattr(s, fld, None)
+            if isinstance(v, ast.AST):
+                setattr(s, fld, Tr().visit(v))
+
     def _ctor_init(self, ctx: FuncInfo, s: ast.stmt, stack):
         """(`__init__` FuncInfo, target name) if `s` is `x = RepoClass(args)` with a user-written constructor"""
         tgt = s.targets[0] if isinstance(s, ast.Assign) and len(s.targets) == 1 else (s.target if isinstance(s, ast.AnnAssign) else None)
@@ -527,6 +554,7 @@ class DeepInliner(Inliner):
             s = queue.pop(0)
             self._note_partial(s)
             self._apply_partials(s)
+            self._bind_unbound_methods(s)
             if isinstance(s, ast.FunctionDef):
                 self.__dict__.setdefault("local_defs", {})[s.name] = s
                 out.append(s)
@@ -791,7 +819,7 @@ def fuse_loops(fn: ast.FunctionDef) -> bool:
 # --------------------------------------------------------------------------- loops over literal tables
 
 
-def unroll_literal_loops(fn: ast.FunctionDef) -> bool:
+def unroll_literal_loops(fn: ast.FunctionDef, owner: FuncInfo | None = None, repo: Repo | None = None) -> bool:
     """`for k, (a, b) in {"x": (p, q), "y": (r, s)}.items(): body`  ->  body[k:="x", a:=p, b:=q]; body[k:="y", a:=r, b:=s]
 
     Small translation tables given as dict / list / tuple literals (directly or through a local bound once) are unrolled, so that the
@@ -801,6 +829,15 @@ def unroll_literal_loops(fn: ast.FunctionDef) -> bool:
     changed = False
 
     def literal(e: ast.expr):
+        if isinstance(e, ast.Attribute) and isinstance(e.value, ast.Name) and owner is not None and owner.cls is not None:
+            # a class-level table: self._TABLE / cls._TABLE / ClassName._TABLE
+            first = fn.args.args[0].arg if fn.args.args else None
+            if e.value.id in (first, "cls", owner.cls.name):
+                for c in repo.mro(owner.cls) if repo is not None else [owner.cls]:
+                    if e.attr in c.class_attrs:
+                        return c.class_attrs[e.attr]
+        if isinstance(e, ast.Name) and not binds.get(e.id) and owner is not None and e.id in owner.module.constants:
+            return owner.module.constants[e.id]
         if isinstance(e, ast.Name) and len(binds.get(e.id, [])) == 1 and not _mutated(fn, e.id):
             b = binds[e.id][0]
             p = getattr(b, "_parent", None)
@@ -979,7 +1016,7 @@ def deep_view(repo: Repo, fi: FuncInfo, types: Types, allow=None) -> FuncInfo:
         inlined += inl.inlined
         inl.inlined = []
         ast.fix_missing_locations(node)
-        if unroll_literal_loops(node):
+        if unroll_literal_loops(node, fi, repo):
             continue
         if ast.dump(node) == before:
             break
